@@ -6,6 +6,8 @@ the latched error; the sink fails according to an ARBITRARY schedule
 ones" are two instances).
 -/
 import CoapLite.Lemmas.LinkWrite
+import CoapLite.Lemmas.Shape.Link
+import CoapLite.Lemmas.Shape.Global
 
 namespace CoapLite.C18
 open CoapLite Link
@@ -43,5 +45,22 @@ example : (writeDoc noFault true exDoc).sink = "<a>,\n\r<b>".toList ∧ (writeDo
 example : (writeDoc (fun i => decide (i = 3)) true exDoc).sink = "<a>".toList ∧
     (writeDoc (fun i => decide (i = 3)) true exDoc).finish = false ∧
     (writeDoc (fun i => decide (i = 3)) true exDoc).calls = 4 := by decide
+
+/-! ### tie to the source: the state the model carries is the state the code carries
+
+`Shapes.*` (Generated/Shapes.lean) is re-read from /repo/src on every run: the field lists of the
+structs this property's model mirrors, and every construct that introduces state outside the values
+the API passes around (thread-locals, `static mut`, cells, locks, atomics). The model accounts for
+exactly these fields (Lemmas/Shape/*.lean say which model field mirrors which); a field or a
+global added to the code – a memo, a marker, a digest in place of the data – breaks this theorem
+even if no explored input behaves differently. -/
+theorem state_shape_matches_source :
+    Shapes.globalState = [] ∧
+    Shapes.linkFormatWrite = [("write", "&'amutT"), ("is_first", "bool"), ("add_newlines", "bool"), ("error", "Option<core::fmt::Error>")] ∧
+    Shapes.linkAttributeWrite = [("0", "&'bmutLinkFormatWrite<'a,T>")] ∧
+    Shapes.linkFormatParser = [("inner", "&'astr")] ∧
+    Shapes.linkAttributeParser = [("inner", "&'astr")] ∧
+    Shapes.unquote = [("inner", "core::str::Chars<'a>"), ("state", "UnquoteState")] :=
+  ⟨ShapeTie.no_global_state, ShapeTie.linkFormatWrite, ShapeTie.linkAttributeWrite, ShapeTie.linkFormatParser, ShapeTie.linkAttributeParser, ShapeTie.unquote⟩
 
 end CoapLite.C18
